@@ -240,6 +240,11 @@ def run_one(seed, tape, opts):
             i = [k for k, o in enumerate(ops) if o[0] == "dilate"][0]
             for o in subs:
                 ops.insert(i + 1 + tape.choose(len(ops) - i, "sp"), o)
+        if dilates and tape.choose(3, "late_dilate") == 0:
+            # dilate() only once the peer's versions are in (an application
+            # that looks at get_versions() first)
+            i = [k for k, o in enumerate(ops) if o[0] == "dilate"][0]
+            ops.insert(i, ("wait_event_or_steps", "versions", 400))
         ev = tape.pick(("code", "key", "verifier", "versions", "closed"), "wev")
         ops.append(("wait_event_or_steps", ev, tape.choose(400, "ws")))
         if tape.choose(2, "linger"):
